@@ -213,3 +213,43 @@ def v_idioms2(root):
 
 
 VARIANTS['idioms2'] = v_idioms2
+
+
+def v_rename_private(root):
+    """rename every private (single underscore) function and method of the package consistently: _name -> _name_r
+    (the rules anchor on many of these names; the model recognises them by where they are called from)"""
+    files = list(py_files(root))
+    names = set()
+    for p in files:
+        for n in ast.walk(ast.parse(open(p, encoding='utf8').read())):
+            if isinstance(n, ast.FunctionDef) and n.name.startswith('_') and not n.name.startswith('__'):
+                names.add(n.name)
+
+    class R(ast.NodeTransformer):
+        def visit_FunctionDef(self, n):
+            self.generic_visit(n)
+            if n.name in names:
+                n.name += '_r'
+            return n
+
+        def visit_Name(self, n):
+            if n.id in names:
+                n.id += '_r'
+            return n
+
+        def visit_Attribute(self, n):
+            self.generic_visit(n)
+            if n.attr in names:
+                n.attr += '_r'
+            return n
+
+        def visit_alias(self, n):
+            if n.name in names:
+                n.name += '_r'
+            return n
+    for p in files:
+        t = R().visit(ast.parse(open(p, encoding='utf8').read()))
+        open(p, 'w', encoding='utf8').write(ast.unparse(ast.fix_missing_locations(t)) + '\n')
+
+
+VARIANTS['rename_private'] = v_rename_private
